@@ -80,6 +80,10 @@ def gen_family(seed, fam):
     shared_slot = r.randrange(nlists)
     if pair is not None and not isinstance(lists[shared_slot], list):
         lists[shared_slot] = []
+    for i in range(nlists):
+        # other collection types a caller may pass for the name lists
+        if isinstance(lists[i], list) and i != shared_slot and r.random() < 0.12:
+            lists[i] = {r.choice(['tuple', 'set']): lists[i]}
     nopts = r.choice([0, 1, 1, 1, 2])
     theme_annotations = r.random() < 0.1
     if theme_annotations:
@@ -187,7 +191,7 @@ def gen_api_spec(seed, index, nhs, tier):
     threaded = (not fam['big']) and r.random() < 0.6
     nthreads = r.choice([2, 2, 2, 3, 3, 4]) if threaded else 1
     sources, names = fam['sources'], fam['names']
-    lists = [(list(v) if isinstance(v, list) else v) for v in fam['lists']]
+    lists = [(list(v) if isinstance(v, list) else (dict((k, list(x)) for k, x in v.items()) if isinstance(v, dict) else v)) for v in fam['lists']]
     opts = [list(o) for o in fam['opts']]
     templates = fam['templates']
     meta = {'feeder_pair': False, 'concat': fam['concat'], 'family': fam_i}
@@ -215,7 +219,7 @@ def gen_api_spec(seed, index, nhs, tier):
         for key in ('pl', 'pg'):
             if c.get(key) is not None and r.random() < 0.15:
                 v = lists[c[key]]
-                lists.append(list(v) if isinstance(v, list) else v)
+                lists.append(list(v) if isinstance(v, list) else (dict((k, list(x)) for k, x in v.items()) if isinstance(v, dict) else v))
                 c[key] = len(lists) - 1
         if isinstance(c.get('ra'), dict) and r.random() < 0.15:
             opts.append(list(opts[c['ra']['slot']]))
